@@ -189,7 +189,8 @@ def judge(t, real, oracle, called=None):
                     wv = dict((l.split(" ")[0], l) for l in want)
                     l = [l for l in got if wv[l.split(" ")[0]] != l][0]
                     return "wrong-value", ("package %s: %r, reference %r - something the initialiser reads (a package-level variable of an import, "
-                                           "a table of a std package such as math/bits) was not initialised when it ran" % (p.path, l, wv[l.split(" ")[0]]))
+                                           "a table of a std package such as math/bits) was not initialised when it ran, or an assignment made by an init function of the package "
+                                           "to a package-level variable (e.g. a reset to a zero constant) did not take effect" % (p.path, l, wv[l.split(" ")[0]]))
                 more = [l for l in labs(got) if labs(got).count(l) > labs(want).count(l)]
                 if more:
                     return "ran-twice", "package %s: %r printed %d times, reference %d" % (p.path, more[0], labs(got).count(more[0]), labs(want).count(more[0]))
@@ -512,7 +513,7 @@ def run(ctx, args):
     # ------------------------------------------------------------------ tie E: traces
     n_eval, n_lines, mismatches, spec_fail, indep_order = 0, 0, [], 0, 0
     stats = {"trees": len(results), "packages": 0, "work_free_packages": 0, "max_consecutive_work_free": 0, "with_sync_atomic": 0, "with_math_bits": 0,
-             "with_unicode_utf8": 0, "with_unreachable": 0, "diamonds": 0, "modes": {}}
+             "with_unicode_utf8": 0, "with_unreachable": 0, "diamonds": 0, "init_resets_observable": 0, "modes": {}}
     samples = []
     spec_gen_mismatch = 0
     for rec in results:
@@ -527,6 +528,7 @@ def run(ctx, args):
             run_len[pk.id] = (1 + max([run_len[q] for q in pk.deps] + [0])) if pk.workfree else 0
         stats["max_consecutive_work_free"] = max([stats["max_consecutive_work_free"]] + [v for k_, v in run_len.items() if k_ in t.reachable])
         stats["with_unreachable"] += 1 if len(t.reachable) < len(t.pkgs) else 0
+        stats["init_resets_observable"] += 1 if t.reset_observable else 0     # trees whose trace changes if zero-constant stores of init functions are lost
         imported_by = {}
         for pk in t.pkgs:
             for q in pk.deps:
